@@ -101,6 +101,20 @@ impl PipeHandle {
         }
     }
 
+    /// Appends raw bytes to the direction written by end `out` in one piece (no capacity limit, no short write):
+    /// used by the scripted peer to write web socket frames by hand.
+    pub fn inject(&self, out: usize, data: &[u8]) -> bool {
+        let mut s = self.0.lock().unwrap();
+        if s.cut || s.dirs[out].reader_gone || s.dirs[out].writer_gone {
+            return false;
+        }
+        let d = &mut s.dirs[out];
+        d.buf.extend(data.iter().copied());
+        d.bytes += data.len() as u64;
+        d.wake_reader();
+        true
+    }
+
     pub fn is_cut(&self) -> bool {
         self.0.lock().unwrap().cut
     }
